@@ -5,6 +5,7 @@ import (
 	"fmt"
 	"io"
 	"strconv"
+	"strings"
 	"testing"
 	"time"
 
@@ -124,12 +125,24 @@ type verifRingGen struct {
 	o      *vh.Out
 	count  int
 	closed bool
+	dead   bool
+	nops   int
 }
 
 func (g *verifRingGen) do(op string) {
+	g.nops++
+	if g.nops > 3000 {
+		g.dead = true // a generator loop that waits for the buffer to fill or drain must end on a broken buffer too
+	}
+	if g.dead {
+		return // the buffer panicked or hung earlier in this case: the case ends there
+	}
 	f := splitFields(op)
 	out := verifRingOp(g.b, &g.closed, f)
 	g.o.Op(op, out, verifRingSt(g.b))
+	if strings.HasPrefix(out, "panic") || strings.HasPrefix(out, "stuck") {
+		g.dead = true
+	}
 }
 
 func splitFields(s string) []string {
@@ -155,6 +168,9 @@ func (g *verifRingGen) write(n int) {
 	if n < 0 {
 		n = 0
 	}
+	if n > 70000 {
+		n = 65536 + n%4464 // everything from 65536 up is refused alike; keep the payloads small
+	}
 	if n <= 24 {
 		g.do("w " + vh.Hex(g.r.Bytes(n)))
 	} else {
@@ -175,7 +191,7 @@ func (g *verifRingGen) toEnd() int {
 }
 
 func (g *verifRingGen) readSome(k int) {
-	for i := 0; i < k && g.b.Count() > 0; i++ {
+	for i := 0; i < k && !g.dead && g.b.Count() > 0; i++ {
 		switch g.r.Intn(8) {
 		case 0:
 			g.do("r 0")
@@ -196,8 +212,8 @@ func verifRingCase(r *vh.Rng, o *vh.Out, id string, hard bool, thorough bool) {
 	b := NewBuffer()
 	g := &verifRingGen{r: r, b: b, o: o}
 	mode := r.Intn(100)
-	if mode >= 90 && !thorough && r.Chance(70) {
-		mode = r.Intn(90) // the 4 MiB histories are expensive: 3% of the quick cases, 10% of the thorough ones
+	if mode >= 90 && !thorough && r.Chance(90) {
+		mode = r.Intn(90) // the 4 MiB histories are expensive: 1% of the quick cases, 10% of the thorough ones
 	}
 	switch {
 	case mode < 40: // small ring, aim at the ring end with every offset
@@ -244,7 +260,7 @@ func verifRingCase(r *vh.Rng, o *vh.Out, id string, hard bool, thorough bool) {
 		g.readSome(r.Intn(pre + 1))
 		target := r.Pick(1, 2, 3, 4, 5, 6, 7) // number of growth steps to cross
 		sz := r.Pick(10, 100, 700, 1500, 5000, 20000, 65535)
-		for b.Size() < 2048<<uint(target) && b.Count() < 400 {
+		for !g.dead && b.Size() < 2048<<uint(target) && b.Count() < 400 {
 			g.write(sz + r.Intn(9) - 4)
 			if r.Chance(15) {
 				g.readSome(1 + r.Intn(3))
@@ -258,8 +274,9 @@ func verifRingCase(r *vh.Rng, o *vh.Out, id string, hard bool, thorough bool) {
 		if r.Chance(50) {
 			g.do("close")
 		}
-		for b.Count() > 0 {
+		for !g.dead && b.Count() > 0 {
 			g.readSome(50)
+			g.nops++
 		}
 		if r.Chance(50) {
 			g.do("r 10")
@@ -270,8 +287,8 @@ func verifRingCase(r *vh.Rng, o *vh.Out, id string, hard bool, thorough bool) {
 		if r.Chance(20) {
 			lim = r.Pick(1, 2, 3, 5, 10, 50, 300, 1000)
 		}
-		if r.Chance(10) {
-			lim = 4*1024*1024 + r.Intn(5) - 2
+		if (thorough && r.Chance(10)) || r.Chance(1) {
+			lim = 4*1024*1024 + r.Intn(5) - 2 // expensive for the list-based model: rare in the quick tier
 		}
 		g.do(fmt.Sprintf("ls %d", lim))
 		steps := 30 + r.Intn(60)
@@ -322,7 +339,7 @@ func verifRingCase(r *vh.Rng, o *vh.Out, id string, hard bool, thorough bool) {
 			g.write(r.Intn(3000))
 		}
 		g.readSome(r.Intn(pre + 1))
-		for capv-1-b.Size() > 70000 {
+		for !g.dead && capv-1-b.Size() > 70000 {
 			g.write(r.Pick(65535, 65000, 64000, 65535, 65535))
 		}
 		for i := 0; i < 12; i++ {
